@@ -50,6 +50,7 @@ def init_parallelism():
 
 
 def make_jobs(prop, tier, seed):
+    init_parallelism()
     rng = random.Random(seed * 50021 + int(prop[1:]))
     prof = PROFILES[prop]
     ntrees = {"quick": 120, "thorough": 2500}[tier]
